@@ -396,13 +396,18 @@ def ticketAuth (ks : KeyStore) (timeoutMs : Nat) (env : Env) (details : Dict)
 def craChallengeStr (nonce provider authid ts authrole : String) (sid : Nat) : String :=
   sprintf Gen.Auth.craChallengeFormat [nonce, provider, authid, ts, authrole, "wampcra", toString sid]
 
-/-- the key wampcra signs with: the stored key, or a throw-away random one -/
-def craKey (ks : KeyStore) (o : Oracle) (authid : String) : Bytes :=
+/-- the throw-away key of wampcra: `nonce()`, or `wamp.NowISO8601()` when that is empty -/
+def craThrowAway (o : Oracle) : Bytes :=
+  let s := o.keyNonce.getD ""
+  (if s == "" then o.keyNow else s).toUTF8.toList
+
+/-- the key wampcra signs with: the stored key, or a throw-away random one when the key store
+    answers an error — or, if `refuseEmpty` (regenerated: `Gen.Auth.craRefusesEmptyKey`, the guard
+    `err != nil || len(key) == 0`), no key at all (nil or empty slice with nil error) -/
+def craKey (refuseEmpty : Bool) (ks : KeyStore) (o : Oracle) (authid : String) : Bytes :=
   match ks.authKey authid "wampcra" with
-  | .ok k => k.getD []
-  | .error _ =>
-    let s := o.keyNonce.getD ""
-    (if s == "" then o.keyNow else s).toUTF8.toList
+  | .ok k => if refuseEmpty && (k.getD []).isEmpty then craThrowAway o else k.getD []
+  | .error _ => craThrowAway o
 
 /-- `crsign.VerifySignature(sig, chal, key)` -/
 def craVerify (o : Oracle) (sig chal : String) (key : Bytes) : Bool :=
@@ -420,7 +425,7 @@ def craChallengeOf (ks : KeyStore) (env : Env) (authid nonce : String) : String 
   craChallengeStr nonce ks.provider authid env.o.now (roleOr ks authid "user") env.o.sid
 
 /-- `CRAuthenticator.Authenticate` -/
-def craAuth (ks : KeyStore) (timeoutMs : Nat) (env : Env) (details : Dict)
+def craAuth (refuseEmpty : Bool) (ks : KeyStore) (timeoutMs : Nat) (env : Env) (details : Dict)
     (script : List Arrival) : AuthRes :=
   let authid := details.optString "authid"
   let w := stdWelcome authid (roleOr ks authid "user") "wampcra" ks.provider
@@ -436,7 +441,7 @@ def craAuth (ks : KeyStore) (timeoutMs : Nat) (env : Env) (details : Dict)
         (.challenge "wampcra" (craExtra ks authid chStr)) script
       { sent := x.sent, rest := x.rest,
         res := andThen x.got fun sig =>
-          if craVerify env.o sig chStr (craKey ks env.o authid) then finishWelcome ks.bypass authid w details
+          if craVerify env.o sig chStr (craKey refuseEmpty ks env.o authid) then finishWelcome ks.bypass authid w details
           else .error .invalidSignature }
 
 /-- `CryptoSignAuthenticator.verifySignature`.  `checksChallenge` is regenerated from the
@@ -462,7 +467,7 @@ def csDecide (checksChallenge : Bool) (o : Oracle) (pubkey challenge : Bytes) (w
   | .ok true => .ok w
 
 /-- `CryptoSignAuthenticator.Authenticate` (no `OnWelcome` on the challenge path) -/
-def csAuth (checksChallenge : Bool) (ks : KeyStore) (timeoutMs : Nat) (env : Env) (details : Dict)
+def csAuth (checksChallenge refuseEmpty : Bool) (ks : KeyStore) (timeoutMs : Nat) (env : Env) (details : Dict)
     (script : List Arrival) : AuthRes :=
   let authid := details.optString "authid"
   if authid == "" then { sent := [], res := .error .missingAuthid, rest := script } else
@@ -476,6 +481,8 @@ def csAuth (checksChallenge : Bool) (ks : KeyStore) (timeoutMs : Nat) (env : Env
       match ks.authKey authid "cryptosign" with
       | .error _ => { sent := [], res := .error .keyError, rest := script }
       | .ok key =>
+        -- `err != nil || len(key) == 0` (regenerated: `Gen.Auth.csRefusesEmptyKey`): no public key, no CHALLENGE
+        if refuseEmpty && (key.getD []).isEmpty then { sent := [], res := .error .keyError, rest := script } else
         match env.o.csChallenge with
         | none => { sent := [], res := .error .nonceError, rest := script }
         | some challenge =>
@@ -490,6 +497,10 @@ structure Facts where
   welcomeNonBlocking : Bool
   firstMatch : Bool
   csChecksChallenge : Bool
+  /-- wampcra treats a key store answer without a key like an error (throw-away random key) -/
+  craRefusesEmptyKey : Bool
+  /-- cryptosign refuses a key store answer without a key before any CHALLENGE -/
+  csRefusesEmptyKey : Bool
   helloSkip : List String
   welcomeSkip : List String
   sessionKey : String
@@ -498,6 +509,8 @@ def Facts.gen : Facts :=
   { welcomeNonBlocking := Gen.Auth.welcomeSendNonBlocking
     firstMatch := Gen.Auth.getAuthenticatorFirstMatch
     csChecksChallenge := Gen.Auth.cryptosignChecksChallenge
+    craRefusesEmptyKey := Gen.Auth.craRefusesEmptyKey
+    csRefusesEmptyKey := Gen.Auth.csRefusesEmptyKey
     helloSkip := Gen.Auth.helloSkip
     welcomeSkip := Gen.Auth.welcomeSkip
     sessionKey := Gen.Auth.sessionKey }
@@ -507,8 +520,8 @@ def runAuth (fx : Facts) (a : Authr) (env : Env) (details : Dict) (script : List
   match a with
   | .anonymous role => anonymousAuth role env.o script
   | .ticket ks t => ticketAuth ks t env details script
-  | .wampcra ks t => craAuth ks t env details script
-  | .cryptosign ks t => csAuth fx.csChecksChallenge ks t env details script
+  | .wampcra ks t => craAuth fx.craRefusesEmptyKey ks t env details script
+  | .cryptosign ks t => csAuth fx.csChecksChallenge fx.csRefusesEmptyKey ks t env details script
   | .custom _ f =>
     { sent := [], rest := script,
       res := match f env.o.sid details with | .ok w => .ok w | .error _ => .error .customError }
